@@ -22,6 +22,7 @@ import (
 	"strconv"
 	"strings"
 	"testing"
+	"time"
 
 )
 
@@ -90,7 +91,11 @@ type c03Cache struct {
 // c03HistIn: several requests, one after the other, against ONE pipeline instance.
 // Every step is a complete c03In (the configuration fields of step 0 count).
 type c03HistIn struct {
-	Cache c03Cache `json:"cache"`
+	// Overlap: steps 0 (warm-up), 1 (A), 2 (B) and the rest run as: warm-up; A starts and its
+	// backend answer is parked after Steps[1].PauseAt body bytes; B runs completely; A is
+	// released and finishes; the rest runs.  No cache; every step is judged on its own.
+	Overlap bool     `json:"overlap"`
+	Cache   c03Cache `json:"cache"`
 	Edit  c03Edit  `json:"edit"`
 	Steps []c03In  `json:"steps"`
 }
@@ -132,6 +137,7 @@ type c03In struct {
 	RespEnc     string      `json:"respEnc"` // cl | chunked | close
 	RespBody    []byte      `json:"respBody"`
 	RespChunk   int         `json:"respChunk"`
+	PauseAt     int         `json:"pauseAt"` // overlap histories: the backend parks after this many body bytes
 
 	O c03Oracle `json:"o"`
 }
@@ -466,10 +472,7 @@ func c03Script(in *c03In) []byte {
 	return raw.Bytes()
 }
 
-// c03Serve sends the request of in through the front and reports what the client
-// received and what the backend received since the call started.
-func c03Serve(fr *c07Front, be *c07Backend, in *c03In) (obs c03Obs) {
-	before := len(be.Seen())
+func c03ReqBytes(in *c03In) ([]byte, bool) {
 	var req bytes.Buffer
 	fmt.Fprintf(&req, "%s %s HTTP/1.1\r\nHost: %s\r\n", in.Method, in.Target, in.Host)
 	for _, kv := range in.Headers {
@@ -492,15 +495,17 @@ func c03Serve(fr *c07Front, be *c07Backend, in *c03In) (obs c03Obs) {
 	default:
 		req.WriteString("\r\n")
 	}
-	r := c07Exchange(fr.Addr(), req.Bytes(), cut)
-	be.Quiesce()
-	seen := be.Seen()[before:]
+	return req.Bytes(), cut
+}
 
+// c03ObsOf: the observation record for one exchange from what the client parsed and the
+// requests the backend recorded for it.
+func c03ObsOf(r c07Resp, seen []c07Seen, backendAddr string) (obs c03Obs) {
 	obs.Got, obs.Status, obs.Kind, obs.Declared, obs.FrameOK = r.Got, r.Status, r.Kind, r.Declared, r.FrameOK
 	obs.Headers = c03CanonHeaders(r.Headers)
 	obs.Body = append([]byte{}, r.Body...)
 	obs.Dec, obs.DecOK, obs.Rest = c03Decode(r.Headers, r.Body)
-	_, port, _ := net.SplitHostPort(be.Addr())
+	_, port, _ := net.SplitHostPort(backendAddr)
 	for _, s := range seen {
 		if !s.Complete {
 			continue
@@ -529,6 +534,16 @@ func c03Serve(fr *c07Front, be *c07Backend, in *c03In) (obs c03Obs) {
 		obs.BDec, obs.BDecOK, obs.BRest = c03Decode(s.Headers, s.Body)
 	}
 	return
+}
+
+// c03Serve sends the request of in through the front and reports what the client
+// received and what the backend received since the call started.
+func c03Serve(fr *c07Front, be *c07Backend, in *c03In) (obs c03Obs) {
+	before := len(be.Seen())
+	raw, cut := c03ReqBytes(in)
+	r := c07Exchange(fr.Addr(), raw, cut)
+	be.Quiesce()
+	return c03ObsOf(r, be.Seen()[before:], be.Addr())
 }
 
 func c03Run(in c03In) (obs c03Obs) {
@@ -561,6 +576,9 @@ func c03ClientMax(in *c03In) int64 {
 }
 
 func c03RunHist(h *c03HistIn) (obs c03HistObs) {
+	if h.Overlap && len(h.Steps) >= 3 {
+		return c03RunOverlap(h)
+	}
 	defer func() {
 		if r := recover(); r != nil {
 			obs.Panic = fmt.Sprint(r)
@@ -984,6 +1002,115 @@ func c03GenBoundary(r *vfRand, j int) (in c03In) {
 	return
 }
 
+// c03RunOverlap: two responses in flight together (start A, run B, finish A) after a
+// warm-up one.  In stream mode the client of A waits for A's response head before B
+// starts (A's body is then in the middle of being forwarded); in buffered mode nothing of
+// A is visible before its backend finishes: B starts a moment after A's backend parked.
+func c03RunOverlap(h *c03HistIn) (obs c03HistObs) {
+	defer func() {
+		if r := recover(); r != nil {
+			obs.Panic = fmt.Sprint(r)
+		}
+	}()
+	be := c07StartBackend(nil)
+	defer be.Close()
+	first := &h.Steps[0]
+	fr := c07StartFront(c07ServerYAML(c03ClientMax(first), 0), c03PipelineYAML(first, be.Addr()))
+	defer fr.Close()
+	a := &h.Steps[1]
+	parked, gate := make(chan struct{}), make(chan struct{})
+	be.SetRoute(func(line string) *c07Scripted {
+		for i := range h.Steps {
+			st := &h.Steps[i]
+			if !strings.HasPrefix(line, st.Method+" "+st.Target+" ") {
+				continue
+			}
+			sc := &c07Scripted{Raw: c03Script(st)}
+			if st == a && a.PauseAt > 0 {
+				if k := bytes.Index(sc.Raw, []byte("\r\n\r\n")); k >= 0 {
+					sc.PauseAt, sc.Parked, sc.Gate = k+4+a.PauseAt, parked, gate
+				}
+			}
+			return sc
+		}
+		return nil
+	})
+	byStep := func(i int) []c07Seen {
+		var out []c07Seen
+		st := &h.Steps[i]
+		for _, s := range be.Seen() {
+			if strings.HasPrefix(s.Line, st.Method+" "+st.Target+" ") {
+				out = append(out, s)
+			}
+		}
+		return out
+	}
+	res := make([]c07Resp, len(h.Steps))
+	run := func(i int) {
+		raw, cut := c03ReqBytes(&h.Steps[i])
+		res[i] = c07Exchange(fr.Addr(), raw, cut)
+	}
+	run(0)
+	rawA, _ := c03ReqBytes(a)
+	pa := c07Send(fr.Addr(), rawA, false)
+	select {
+	case <-parked:
+	case <-time.After(c07IOTimeout):
+	}
+	if first.SStream || first.PoolMax < 0 || first.ProxyMax < 0 {
+		pa.ReadHead()
+	} else {
+		time.Sleep(30 * time.Millisecond)
+	}
+	run(2)
+	close(gate)
+	if pa != nil {
+		res[1] = pa.Finish()
+	}
+	for i := 3; i < len(h.Steps); i++ {
+		run(i)
+	}
+	be.Quiesce()
+	for i := range h.Steps {
+		obs.Steps = append(obs.Steps, c03ObsOf(res[i], byStep(i), be.Addr()))
+	}
+	return
+}
+
+// c03GenOverlap: case j of the overlap schedule (every fourth: stream mode, else buffered).
+func c03GenOverlap(r *vfRand, j int) (h c03HistIn) {
+	h.Overlap = true
+	var cfg c03In
+	cfg.SrvHost, cfg.MinLen, cfg.SStream = "127.0.0.1", 0, j%4 == 0
+	mk := func(name string, body []byte, pause int) {
+		in := cfg
+		in.Method, in.Host, in.Target, in.ReqEnc = "GET", "front.test", "/overlap/"+name, "none"
+		in.Headers = [][2]string{{"X-Trace", name}, {"Accept-Encoding", "gzip"}}
+		in.RespStatus, in.RespEnc, in.RespBody, in.PauseAt = 200, r.PickStr("cl", "cl", "close"), body, pause
+		in.RespHeaders = [][2]string{{"Content-Type", "application/octet-stream"}, {"X-Resp", name}}
+		h.Steps = append(h.Steps, in)
+	}
+	rnd := func(n int) []byte {
+		b := make([]byte, n)
+		for i := range b {
+			b[i] = byte(r.Intn(256))
+		}
+		return b
+	}
+	mk("warm", c03Text(r, r.PickInt(100, 400)), 0)
+	if cfg.SStream {
+		// incompressible, so that the gateway has forwarded part of A before its backend parks
+		// (the gzip reader hands data on in units of its 32 KiB round)
+		mk("a", rnd(3*32768), 2*32768+1)
+	} else {
+		mk("a", c03Text(r, 2000), 1000)
+	}
+	mk("b", c03Text(r, r.PickInt(50, 500, 3000)), 0)
+	mk("c", c03Text(r, 120), 0)
+	c03FillHistOracles(&h)
+	return
+}
+
 // c03GenHist: a history of requests against one pipeline whose pool has a memoryCache;
 // the same cacheable request is repeated (miss, then hits) interleaved with other
 // resources, uncacheable requests and backend answers that must not be stored; every
@@ -1120,6 +1247,11 @@ func TestVerifC03E2E(t *testing.T) {
 	}
 	n := vfN(200)
 	for i := 0; i < n; i++ {
+		if i%60 == 29 {
+			h := c03GenOverlap(root.Fork(i), i/60)
+			out.Emit(vfCase{ID: fmt.Sprintf("%s-overlap-%d", src, i), Src: src, Grp: "hist", In: h, Obs: c03RunHist(&h)})
+			continue
+		}
 		if i%10 == 3 {
 			h := c03GenHist(root.Fork(i), adv)
 			out.Emit(vfCase{ID: fmt.Sprintf("%s-hist-%d", src, i), Src: src, Grp: "hist", In: h, Obs: c03RunHist(&h)})
